@@ -833,6 +833,7 @@ func (it *Interp) builtin(fr *frame, name string, args []Value) Value {
 		return IfaceV{}
 	case "close":
 		c := args[0].(*ChanV)
+		it.visible("close", chanKey(c)) // a close is ordered with every other operation on the channel
 		if c.closed {
 			panic(&goPanic{msg: "close of closed channel"})
 		}
